@@ -236,6 +236,7 @@ _POOLS = [
     ["x", "y", ["x"], ["x", "y"], ["y"], []],
     [1, 2, 3, "1"],
     ["x", "ü", "𝄞", "x "],
+    [None, "", 0, [], "x"],       # present-but-falsy values, JSON null among them: not the same thing as a missing key
 ]
 
 
